@@ -142,3 +142,46 @@ func C17(shard, nshards int) {
 	vstub.Assert("c17.idempotent/"+cls, vstub.BytesEq(s1.Data, s2.Data))
 	vstub.Reach("c17")
 }
+
+var keywordNames = []string{"readonly", "message", "struct", "enum", "deprecated", "opcode", "map", "array", "union", "const", "inf", "nan", "true", "false", "import", "flags"}
+
+// C11Keyword: a name that happens to be a keyword of the language. The
+// property does not say such a schema is accepted; if it is, the File has the
+// element under that name - nothing is dropped without an error.
+func C11Keyword(site int) {
+	kw := keywordNames[vstub.Choose(0, len(keywordNames)-1)]
+	var src []byte
+	switch site {
+	case 0:
+		src = app(nil, "enum E {\n A = 1;\n ", kw, " = 2;\n B = 3;\n}\n")
+	case 1:
+		src = app(nil, "struct S {\n int32 a;\n string ", kw, ";\n bool b;\n}\n")
+	case 2:
+		src = app(nil, "message M {\n 1 -> int32 a;\n 2 -> string ", kw, ";\n 3 -> bool b;\n}\n")
+	case 3:
+		src = app(nil, "union U {\n 1 -> struct A { }\n 2 -> struct ", kw, " { }\n 3 -> struct B { }\n}\n")
+	default:
+		src = app(nil, "struct A { }\nstruct ", kw, " { int32 x; }\nstruct B { }\n")
+	}
+	vstub.SetLoopBudget(64*len(src) + 1024)
+	f, _, err := bebop.ReadFile(reader(src))
+	if err != nil {
+		vstub.Reach("c11kw")
+		return
+	}
+	ok := false
+	switch site {
+	case 0:
+		ok = len(f.Enums) == 1 && len(f.Enums[0].Options) == 3 && f.Enums[0].Options[1].Name == kw && f.Enums[0].Options[2].UintValue == 3
+	case 1:
+		ok = len(f.Structs) == 1 && len(f.Structs[0].Fields) == 3 && f.Structs[0].Fields[1].Name == kw
+	case 2:
+		ok = len(f.Messages) == 1 && len(f.Messages[0].Fields) == 3 && f.Messages[0].Fields[2].Name == kw
+	case 3:
+		ok = len(f.Unions) == 1 && len(f.Unions[0].Fields) == 3 && f.Unions[0].Fields[2].Struct != nil && f.Unions[0].Fields[2].Struct.Name == kw
+	default:
+		ok = len(f.Structs) == 3 && f.Structs[1].Name == kw
+	}
+	vstub.Assert("c11.keyword-name/"+[]string{"enum-member", "struct-field", "message-field", "union-branch", "definition"}[site], ok)
+	vstub.Reach("c11kw")
+}
